@@ -122,7 +122,10 @@ prop("C13", modules=["version"],
 
 prop("C14", modules=["deps"],
      functions=[MFN + "_validate_dependency", MFN + "call", MFN + "call_batch",
-                "dependency_graph:DependencyGraph.transitive_memento_fn_dependencies", "dependency_graph:DependencyGraph.direct_memento_fn_dependencies"],
+                "dependency_graph:DependencyGraph.transitive_memento_fn_dependencies", "dependency_graph:DependencyGraph.direct_memento_fn_dependencies",
+                # the scope of the collection ("plain helper functions of the same package"): the package_scope handed to collect_transitive_dependencies
+                MFN + "_recompute_version"],
+     function_modules={MFN + "_recompute_version": ["codehash"]},
      design_ref="DESIGN.md section 6, C14",
      trusted=["_extract_fn_ref_args (recursive walk over argument structures) is summarised by in_fnref_names (assumed)",
               "exactness of the collected rule list w.r.t. the program's reference graph (list_dotted_names / collect_transitive_dependencies) is NOT claimed: AST visitor and dynamic resolution are outside the verifier's subset"],
